@@ -270,3 +270,15 @@ class CoroVal:
 
     def __deepcopy__(self, memo):
         return self
+
+
+class AnyList:
+    """A list of known length whose elements are unconstrained values of a declaration (materialised on access)."""
+
+    def __init__(self, n, decl):
+        self.n = n
+        self.decl = decl
+        self.cache = {}
+
+    def __deepcopy__(self, memo):
+        return self
